@@ -50,11 +50,11 @@ type logC struct {
 }
 
 type recC struct {
-	mu  sync.Mutex
-	t0  time.Time
-	log []logC
-	del []delivery
-	sig chan struct{}
+	mu     sync.Mutex
+	t0     time.Time
+	log    []logC
+	queued []report.SessReport
+	sig    chan struct{}
 }
 
 func (r *recC) NotifySessReport(sr report.SessReport) {
@@ -63,11 +63,7 @@ func (r *recC) NotifySessReport(sr report.SessReport) {
 	}
 	r.mu.Lock()
 	defer r.mu.Unlock()
-	for _, rep := range sr.Reports {
-		if u, ok := rep.(report.USAReport); ok {
-			r.del = append(r.del, delivery{sr.SEID, u.URRID, u.USARTrigger.Flags})
-		}
-	}
+	r.queued = append(r.queued, sr) // read later, as the PFCP server does
 }
 func (r *recC) PopBufPkt(uint64, uint16) ([]byte, bool) { return nil, false }
 
@@ -182,7 +178,14 @@ func runC(c CaseC) (v *vcore.Violation, timing bool, st statsC) {
 	end := time.Since(rec.t0)
 	rec.mu.Lock()
 	log := append([]logC(nil), rec.log...)
-	del := append([]delivery(nil), rec.del...)
+	var del []delivery
+	for _, sr := range rec.queued {
+		for _, rep := range sr.Reports {
+			if u, ok := rep.(report.USAReport); ok {
+				del = append(del, delivery{sr.SEID, u.URRID, u.USARTrigger.Flags})
+			}
+		}
+	}
 	rec.mu.Unlock()
 
 	// ---- model: membership after each event; epochs of each period's ticker
